@@ -83,10 +83,14 @@ func runC18(c *fw.Ctx) {
 		forms := pg.Program()
 		text := progText(forms)
 		c.Case(fmt.Sprintf("prog-%d", i), text, func() {
-			if ref := runRef(forms, 100000); ref.Err != nil && (ref.Err.Class == refmal.Budget || ref.Err.Class == refmal.Malformed) {
-				c.Count("discarded."+string(ref.Err.Class), 1)
+			mref := runRef(forms, 100000)
+			if mref.Err != nil && (mref.Err.Class == refmal.Budget || mref.Err.Class == refmal.Malformed) {
+				c.Count("discarded."+string(mref.Err.Class), 1)
 				return
 			}
+			// symbols that are genuinely unbound where they are evaluated (per the reference interpreter, also inside try)
+			// are legitimately handed to the callback with a scope in which they do not resolve
+			genuinelyUnbound := mref.It.UnboundSeen
 			ast, err := lisp.READ(text, types.NewCursorFile("prog.lisp"), nil)
 			if err != nil {
 				return
@@ -112,7 +116,7 @@ func runC18(c *fw.Ctx) {
 						nilScope = lisp.PRINT(a)
 					}
 					if s, ok := a.(types.Symbol); ok && ns != nil && unresolved == "" {
-						if _, e := ns.Get(s); e != nil && !c18AllowedUnbound.MatchString(s.Val) {
+						if _, e := ns.Get(s); e != nil && !c18AllowedUnbound.MatchString(s.Val) && !genuinelyUnbound[s.Val] {
 							unresolved = s.Val
 						}
 					}
